@@ -4,6 +4,7 @@ import (
 	"encoding/json"
 	"fmt"
 	"reflect"
+	"strconv"
 	"strings"
 	"time"
 
@@ -119,6 +120,24 @@ func (c17) lookupText(c *mon.Ctx, i int64) string {
 func (c17) treeCase(c *mon.Ctx) ([]*gt.T, *gt.Layout) {
 	s := gen.NewSyntax(c.R)
 	stmts := gt.ParenthesizeStmts(s.Program(4, 2, 3))
+	// some non-negative numeric literals are spelled with a unary plus, glued
+	// or spaced (`+19`, `+ 19`, `+2.5`): the literal then starts at its sign
+	gt.WalkStmts(stmts, func(t *gt.T) {
+		if t.Spell != "" || c.R.Intn(4) != 0 {
+			return
+		}
+		gap := []string{"", "", " ", "  "}[c.R.Intn(4)]
+		switch {
+		case t.K == gt.KInt && t.I >= 0:
+			t.Spell = "+" + gap + strconv.FormatInt(t.I, 10)
+		case t.K == gt.KFloat && t.F >= 0 && t.F < 1e15 && t.F == t.F:
+			f := strconv.FormatFloat(t.F, 'f', -1, 64)
+			if !strings.Contains(f, ".") {
+				f += ".0"
+			}
+			t.Spell = "+" + gap + f
+		}
+	})
 	var lay *gt.Layout
 	if c.R.Intn(5) != 0 {
 		lay = &gt.Layout{R: c.Sub("lay"), Breaks: true, Extended: c.R.Intn(2) == 0, Multibyte: true}
